@@ -502,7 +502,7 @@ func (h *keyHist) judge(k keyT) *evid.Disc {
 	}
 	for i := range anomalies {
 		if ok, _ := h.linearizable(&anomalies[i], false, false); ok {
-			d := evid.D("C31-"+anomalies[i].name, "%s: no serial order explains the recorded return values unless %s is allowed: %s", k, anomalies[i].name, h.describe())
+			d := evid.D("C31-"+anomalies[i].name, "%s: every serial order of the operations on this key contains a call whose recorded return value contradicts the model, and the single deviation that explains the history is: %s. History (op→return value; set#n = subscribe/retain tagged n, del = unsubscribe/clear): %s", k, anomalies[i].name, h.describe())
 			return &d
 		}
 	}
@@ -1008,8 +1008,12 @@ func raceReports() []evid.Disc {
 	fresh := string(b[raceLogOff:])
 	raceLogOff = int64(len(b))
 	var ds []evid.Disc
+	count := map[string]int{}
 	for _, rep := range strings.Split(fresh, "WARNING: DATA RACE")[1:] {
-		ds = append(ds, evid.D(raceSignature(rep), "the race detector reported:\nWARNING: DATA RACE%s", trimReport(rep)))
+		sig := raceSignature(rep)
+		if count[sig]++; count[sig] == 1 {
+			ds = append(ds, evid.D(sig, "the race detector reported (first of the reports with this pair of functions in this execution):\nWARNING: DATA RACE%s", trimReport(rep)))
+		}
 	}
 	return ds
 }
@@ -1035,8 +1039,8 @@ func trimReport(rep string) string {
 	if i := strings.Index(rep, "=================="); i >= 0 {
 		rep = rep[:i]
 	}
-	if len(rep) > 3000 {
-		rep = rep[:3000] + "..."
+	if len(rep) > 1800 {
+		rep = rep[:1800] + "..."
 	}
 	return rep
 }
